@@ -62,6 +62,7 @@ type Frame struct {
 	blockR       map[*ssa.BasicBlock]string // guard of each block executed so far
 	entryR       string                     // guard under which the function is entered
 	aliasBound   map[string]string          // recorded name -> current name it was bound to by the last bindLocals
+	inner        *Frame                     // (top frame) the expanded helper frame whose call site is being annotated
 	domBound     map[string]bool            // names bound by the last bindLocals from a dominating definition
 	posPath      string                     // chain of call positions from the function under contract to this (inlined) frame
 	expLoops     map[string]string          // (top frame) loop descriptors numbered over the expanded text
